@@ -173,55 +173,51 @@ def r1_layouts(ctx):
             ctx.violation("C17.R1", des.qual, loc(des), f"{ci.name} fields", f"{ci.name}.deser does not set field(s) {sorted(missing)}")
     ctx.floor("C17.R1.classes", n, 13)
     ctx._c17_widths = widths
-    # the string primitive
+    # the string primitive: strict codec (structural) + mirror of layout on representative strings (the layout is data independent)
     s = repo.func(f"{API}.ser_str")
     d = repo.func(f"{API}.deser_str")
     ctx.analysed(s.qual)
     ctx.analysed(d.qual)
-    sv = ip.explore(s)[0].exit[1]
-    dv = ip.explore(d)[0].exit[1]
-    pieces = _flatten_add(sv)
-    ok_s = len(pieces) == 2 and isinstance(pieces[0], App) and pieces[0].fname == "len(s).to_bytes" and isinstance(pieces[1], App) and pieces[1].fname == "s.encode"
-    if not ok_s:
-        ctx.undecided("C17.R1", loc(s), f"ser_str: unrecognised expression {vkey(sv)[:160]}")
-        return
-    lw = pieces[0].args[0] if pieces[0].args else None
-    enc = pieces[1]
-    if enc.args != ("ascii",) or enc.kwargs:
-        ctx.violation("C17.R1", s.qual, loc(s), "ser_str strict codec",
-                      f"ser_str encodes with {vkey(enc.args)} {dict(enc.kwargs)}: a string outside the admitted (ASCII) domain must be rejected "
-                      f"when encoding, never silently altered; only a plain strict 'ascii' encode does that")
-    else:
-        ctx.ok("C17.R1", loc(s), "ser_str: strict ascii encode")
-    good = isinstance(dv, tuple) and len(dv) == 2 and isinstance(dv[0], App) and dv[0].fname == "str" and len(dv[0].args) == 2 and dv[0].args[1] == "ascii"
-    if good:
-        k = vkey(dv)
-        good = f"slice(None, {lw}, None)" in k and f"(slice {lw} (Add {lw} " in k and k.count("from_bytes") >= 2
-    if not good:
-        ctx.violation("C17.R1", d.qual, loc(d), "deser_str layout",
-                      f"deser_str does not mirror ser_str (length prefix of {lw} bytes, then that many ascii bytes, rest returned): {vkey(dv)[:200]}")
-    else:
-        ctx.ok("C17.R1", loc(d), f"deser_str mirrors ser_str (length prefix {lw} bytes, ascii)")
+    encs = [e for p in ip.explore(s) for e in p.effects if e.kind == "call" and e.data.get("method") == "encode"]
+    if not encs:
+        ctx.undecided("C17.R1", loc(s), "ser_str: no encode call found")
+    for enc in encs[:1]:
+        if list(enc.data["args"]) != ["ascii"] or enc.data["kwargs"]:
+            ctx.violation("C17.R1", s.qual, loc(s), "ser_str strict codec",
+                          f"ser_str encodes with {vkey(enc.data['args'])} {enc.data['kwargs']}: a string outside the admitted (ASCII) domain must be rejected "
+                          f"when encoding, never silently altered; only a plain strict 'ascii' encode does that")
+        else:
+            ctx.ok("C17.R1", loc(s), "ser_str: strict ascii encode")
+    for text in ("", "k", "key.with.dots-and_more" * 12):
+        sp = ip.explore(s, args={"s": text})
+        wire = sp[0].exit[1] if len(sp) == 1 and sp[0].exit[0] == "return" else None
+        if not isinstance(wire, bytes):
+            ctx.undecided("C17.R1", loc(s), f"ser_str({text[:10]!r}…) not evaluable: {vkey(wire)[:80]}")
+            continue
+        dp = ip.explore(d, args={"b": wire + b"REST"})
+        got = dp[0].exit[1] if len(dp) == 1 and dp[0].exit[0] == "return" else None
+        if got != (text, b"REST"):
+            ctx.violation("C17.R1", d.qual, loc(d), "deser_str mirrors ser_str",
+                          f"deser_str(ser_str(s) + rest) for a {len(text)}-character ASCII string gives {vkey(got)[:100]}; expected (s, rest)")
+        else:
+            ctx.ok("C17.R1", loc(d), f"deser_str(ser_str(s) + rest) == (s, rest) for len(s)={len(text)}")
 
 
 def r2_registry(ctx):
+    from ..interp import module_globals
+    from ..terms import ClassRef
+
     repo = ctx.repo
-    m = repo.module(API)
-    if f"{API}.b2c" not in repo.consts or f"{API}.c2b" not in repo.consts:
-        ctx.undecided("C17.R2", "-", "b2c / c2b tables vanished")
+    mg = module_globals(repo, API)
+    b2c, c2b = mg.get("b2c"), mg.get("c2b")
+    site = "src/cascade/shm/api.py"
+    if not isinstance(b2c, dict) or not isinstance(c2b, dict) or not b2c:
+        ctx.undecided("C17.R2", site, f"cannot evaluate the b2c / c2b tables: {vkey(b2c)[:80]} / {vkey(c2b)[:80]}")
         return
-    _, b2c = repo.consts[f"{API}.b2c"]
-    _, c2b = repo.consts[f"{API}.c2b"]
-    if not isinstance(b2c, ast.Dict):
-        ctx.undecided("C17.R2", "-", "b2c is not a dict display")
-        return
-    tags, regs = [], []
-    for k, v in zip(b2c.keys, b2c.values):
-        tags.append(ast.literal_eval(k) if isinstance(k, ast.Constant) else None)
-        regs.append(repo.resolve_expr(m, v))
-    site = f"src/cascade/shm/api.py:{b2c.lineno}"
-    if any(not isinstance(t, bytes) or len(t) != 1 for t in tags) or len(set(tags)) != len(tags):
-        ctx.violation("C17.R2", API, site, "tags", f"message tags must be distinct single bytes: {tags}")
+    tags = list(b2c.keys())
+    regs = [v.qual if isinstance(v, ClassRef) else vkey(v) for v in b2c.values()]
+    if any(not isinstance(t, bytes) or len(t) != 1 for t in tags):
+        ctx.violation("C17.R2", API, site, "tags", f"message tags must be single bytes: {tags}")
     else:
         ctx.ok("C17.R2", site, f"{len(tags)} distinct one-byte tags")
     concrete = [ci for ci in _classes(repo) if ci.name != "EmptyCommand"]
@@ -233,21 +229,23 @@ def r2_registry(ctx):
             ctx.ok("C17.R2", site, f"{ci.name} registered")
     if len(set(regs)) != len(regs):
         ctx.violation("C17.R2", API, site, "duplicate class", "a class is registered under two tags: c2b keeps only one")
-    inv = unparse(c2b).replace(" ", "")
-    if inv != "{v:kfork,vinb2c.items()}":
-        ctx.undecided("C17.R2", site, f"c2b is not the inverse comprehension of b2c: {unparse(c2b)}")
+    inv = {(k.qual if isinstance(k, ClassRef) else vkey(k)): v for k, v in c2b.items()}
+    if inv != {r: t for t, r in zip(tags, regs)}:
+        ctx.violation("C17.R2", API, site, "c2b inverse of b2c", f"c2b is not the inverse of b2c: {vkey(inv)[:160]}")
     else:
         ctx.ok("C17.R2", site, "c2b is the inverse of b2c")
     ctx.floor("C17.R2.classes", len(concrete), 13)
     # top-level ser/deser use the tables with a 1-byte tag
-    ip = Interp(repo)
-    sv = ip.explore(repo.func(f"{API}.ser"))[0].exit[1]
-    dv = ip.explore(repo.func(f"{API}.deser"))[0].exit[1]
-    svk = vkey(sv).replace("cascade.shm.api.", "")
-    if "c2b[type(comm)" not in svk or not ("comm.ser()" in svk or "Comm.ser(comm)" in svk):
-        ctx.undecided("C17.R2", "-", f"api.ser: unrecognised {vkey(sv)[:120]}")
-    elif "slice(None, 1, None)" not in vkey(dv) or "slice(1, None, None)" not in vkey(dv):
-        ctx.violation("C17.R2", f"{API}.deser", loc(repo.func(f"{API}.deser")), "tag width", f"api.deser does not split a 1-byte tag from the body: {vkey(dv)[:160]}")
+    env = {f"{API}.b2c": b2c, f"{API}.c2b": c2b}
+    ip = Interp(repo, inline=INL)
+    sv = [p.exit[1] for p in ip.explore(repo.func(f"{API}.ser"), env=env, args={"comm": Sym("comm")}) if p.exit[0] == "return"]
+    dv = [p.exit[1] for p in ip.explore(repo.func(f"{API}.deser"), env=env) if p.exit[0] == "return"]
+    svk = vkey(sv[0]).replace("cascade.shm.api.", "") if sv else ""
+    dvk = vkey(dv[0]) if dv else ""
+    if not sv or "type(comm)" not in svk or not ("comm.ser()" in svk or "Comm.ser(comm)" in svk):
+        ctx.undecided("C17.R2", site, f"api.ser: unrecognised {svk[:120]}")
+    elif "slice(None, 1, None)" not in dvk or "slice(1, None, None)" not in dvk:
+        ctx.violation("C17.R2", f"{API}.deser", loc(repo.func(f"{API}.deser")), "tag width", f"api.deser does not split a 1-byte tag from the body: {dvk[:160]}")
     else:
         ctx.ok("C17.R2", loc(repo.func(f"{API}.deser")), "api.ser/deser: 1-byte tag + body")
 
